@@ -1,5 +1,42 @@
+//! C45 (WASM validation total + sandbox rules), C46 (instrumentation preserves meaning, cost is a
+//! function of the executed path), C47 (host memory access from WASM is bounds-checked).
+mod c45;
+mod c46;
+mod c47;
+mod facts;
+mod gen;
+mod hostfns;
+mod plain;
+mod rt;
+
 fn main() {
     let args = rv_common::parse_args();
-    eprintln!("no check named {}", args.prop);
-    std::process::exit(2);
+    let code = match args.prop.as_str() {
+        "C45" => c45::run(&args),
+        "C46" => c46::run(&args),
+        "C47" => c47::run(&args),
+        // development aid: print one generated program
+        "__gen" => {
+            let mut rng = rv_common::Rng::new(args.seed);
+            let fl = match args.extra.first().map(|s| s.as_str()) {
+                Some("family") => gen::Flavour::Family,
+                Some("separated") => gen::Flavour::Separated,
+                _ => gen::Flavour::Mixed,
+            };
+            println!("{}", gen::generate(&mut rng, fl).wat);
+            0
+        }
+        "__deep" => {
+            let n: usize = args.extra.first().and_then(|s| s.parse().ok()).unwrap_or(1000);
+            let kind = args.extra.get(1).cloned().unwrap_or("block".into());
+            let h = std::thread::Builder::new().stack_size(8 << 20).spawn(move || c45::deep_probe(n, &kind)).unwrap();
+            h.join().unwrap();
+            0
+        }
+        other => {
+            eprintln!("rv-wasm: no check named {other}");
+            2
+        }
+    };
+    std::process::exit(code);
 }
